@@ -154,34 +154,6 @@ def work(lines):
   return stats, mismatches, sample
 
 
-class Dispatcher:
-  """Feeds TLC's emitted lines to a process pool in chunks."""
-
-  def __init__(self, workfn, chunk=1500):
-    self.pool = mp.Pool(common.NCPU)
-    self.workfn = workfn
-    self.chunk = chunk
-    self.buf = []
-    self.pending = []
-
-  def __call__(self, line):
-    self.buf.append(line)
-    if len(self.buf) >= self.chunk:
-      self.flush()
-
-  def flush(self):
-    if self.buf:
-      self.pending.append(self.pool.apply_async(self.workfn, (self.buf,)))
-      self.buf = []
-
-  def results(self):
-    self.flush()
-    for p in self.pending:
-      yield p.get()
-    self.pool.close()
-    self.pool.join()
-
-
 MC_CONFIGS = {
     'quick': [
         dict(name='names', MaxParams=3, MaxVa=2, MaxOps=2, SigMode=0, KwMode=0,
@@ -208,7 +180,7 @@ def run_mc(v: common.Verdict, workdir):
     consts['EmitOn'] = True
     cfg = common.cfg_text(consts, view='AbsView', constraints=['Bound'],
                           invariants=['TypeOK'])
-    disp = Dispatcher(work)
+    disp = common.Dispatcher(work)
     res = common.run_tlc('MC_C03', cfg, workdir=os.path.join(workdir, c['name']),
                          on_json=disp)
     common.require_tlc_ok(res, f'MC_C03/{c["name"]}')
